@@ -36,6 +36,8 @@ func renderExpr(e sexpr) string {
 		return e["f"].(string) + "(" + renderExpr(e["a"].(map[string]interface{})) + ")"
 	case "tab":
 		return "(SELECT n FROM " + e["t"].(string) + ")"
+	case "aggq":
+		return "(SELECT " + e["f"].(string) + "(n) FROM " + e["t"].(string) + ")"
 	}
 	core.Fail("unknown expression %v", e)
 	return ""
@@ -99,6 +101,10 @@ func renderStmts(ss []interface{}, ind string) string {
 		case "tabdispose":
 			fmt.Fprintf(&b, "%sDISPOSE VIEW %s;\n", ind, s["t"])
 		case "func":
+			if agg, _ := s["agg"].(bool); agg {
+				fmt.Fprintf(&b, "%sDECLARE %s AGGREGATE (list) AS BEGIN\n%s  VAR @n := 0, @v;\n%s  WHILE @v IN list DO @n := @n + @v + 100; END WHILE;\n%s  RETURN @n;\n%sEND;\n", ind, s["f"], ind, ind, ind, ind)
+				continue
+			}
 			params := s["p"].(string)
 			if q, _ := s["q"].(string); q != "" {
 				params += ", " + q + " DEFAULT " + renderExpr(s["d"].(map[string]interface{}))
